@@ -413,14 +413,16 @@ func optZ(ok bool, v int) string {
 }
 
 func coqTxn(tok, client int, nonce int64, fee uint64, cdate int64, valbig bool, cost string, size, fn int, valid bool, kind int, value uint64, to int) string {
-	return fmt.Sprintf("{| bt_hash := %d; bt_client := %d; bt_nonce := %s; bt_fee := %d; bt_cdate := %d; bt_valbig := %s; bt_cost := %s; bt_size := %d; bt_fname := %d; bt_valid := %s; bt_kind := %d; bt_value := %d; bt_to := %d |}",
-		tok, client, vh.Z(nonce), fee, cdate, vh.Bool(valbig), cost, size, fn, vh.Bool(valid), kind, value, to)
+	// positional constructor application (elaborates twice as fast as record syntax):
+	// hash client nonce fee cdate valbig cost size fname valid kind value to
+	return fmt.Sprintf("(Build_bg_txn %d %d %s %d %s %s %s %d %d %s %d %d %d)",
+		tok, client, vh.Z(nonce), fee, vh.Z(cdate), vh.Bool(valbig), cost, size, fn, vh.Bool(valid), kind, value, to)
 }
 
 func coqCase(c Case, r result) string {
-	now0 := r.now0
-	cfg := fmt.Sprintf("{| bc_maxcost := %d; bc_maxbytes := %d; bc_tol := 600; bc_bdate := %d; bc_miner := %d |}",
-		c.Cfg.MaxBlockCost, c.Cfg.MaxByteSize, r.bdate, minerTok)
+	now0 := r.now0 // dates are emitted relative to now0 (WithinTime is translation invariant)
+	cfg := fmt.Sprintf("{| bc_maxcost := %d; bc_maxbytes := %d; bc_tol := 600; bc_bdate := %s; bc_miner := %d |}",
+		c.Cfg.MaxBlockCost, c.Cfg.MaxByteSize, vh.Z(r.bdate-now0), minerTok)
 	var accts []string
 	for _, a := range c.Accts {
 		accts = append(accts, vh.Pair(vh.Z(int64(a.Client)), vh.Pair(vh.Z(a.Nonce), vh.ZU(a.Bal))))
@@ -437,12 +439,12 @@ func coqCase(c Case, r result) string {
 		if s.ValBig {
 			val = cconfig.MaxTokenSupply + 1
 		}
-		pool = append(pool, coqTxn(inf.tok, s.Client, s.Nonce, s.Fee, now0+s.DateOff, s.ValBig && s.Kind == 0,
+		pool = append(pool, coqTxn(inf.tok, s.Client, s.Nonce, s.Fee, s.DateOff, s.ValBig && s.Kind == 0,
 			optZ(!inf.costErr, inf.cost), inf.size, inf.fnameK, inf.valid, kind, val, s.To))
 	}
 	var bis []string
 	for j, tok := range r.biToks {
-		bis = append(bis, coqTxn(tok, minerTok, 0, 0, r.bdate, false, optZ(r.biCosts[j] >= 0, r.biCosts[j]), 0, tok-1000, true, 5, 0, 0))
+		bis = append(bis, coqTxn(tok, minerTok, 0, 0, r.bdate-now0, false, optZ(r.biCosts[j] >= 0, r.biCosts[j]), 0, tok-1000, true, 5, 0, 0))
 	}
 	gen := "None"
 	if r.genErr == "" {
@@ -582,6 +584,21 @@ func genCase(r *vh.Rand, maxPool int) Case {
 	return c
 }
 
+// compact drops the transactions the order does not mention.
+func compact(c Case) Case {
+	out := c
+	out.Txns, out.Order = nil, nil
+	idx := map[int]int{}
+	for _, ix := range c.Order {
+		if _, ok := idx[ix]; !ok {
+			idx[ix] = len(out.Txns)
+			out.Txns = append(out.Txns, c.Txns[ix])
+		}
+		out.Order = append(out.Order, idx[ix])
+	}
+	return out
+}
+
 func key(c Case) string {
 	b, _ := json.Marshal(c)
 	h := sha256.Sum256(b)
@@ -599,7 +616,7 @@ func main() {
 		"creation dates inside/outside the tolerance, bad signatures, oversized values), iteration order as generated / by fee / shuffled, sometimes an entry twice; " +
 		"cost limit at a prefix cost -1/0/+1; built-ins commit_settings_changes / generate_challenge on or off; + all ordered pools of length <= 2 (3 thorough) over 6 transaction shapes. " +
 		"non-trivial = block holds at least one pool transaction and at least one pool entry was left out; distinct by input hash"
-	cf := &vh.CasesFile{Imports: []string{"Base.Corr", "Model.BlockGen", "Corr.BlockGen"}, CaseType: "bgc_case", CheckFn: "bgc_check", Shard: 100}
+	cf := &vh.CasesFile{Imports: []string{"Base.Corr", "Model.BlockGen", "Corr.BlockGen"}, CaseType: "bgc_case", CheckFn: "bgc_check", Shard: 50}
 
 	handle := func(c Case) {
 		r := run(c)
@@ -635,7 +652,7 @@ func main() {
 			for _, i := range keep {
 				c2.Order = append(c2.Order, c.Order[i])
 			}
-			rep.Violate("C45:"+sig, r.violDesc[sig], c2)
+			rep.Violate("C45:"+sig, r.violDesc[sig], compact(c2))
 		}
 	}
 
@@ -645,7 +662,7 @@ func main() {
 			panic(err)
 		}
 		rep.CaseFiles = files
-		rep.ShardSize = 100
+		rep.ShardSize = 50
 		rep.Write(o.Out)
 	}
 
